@@ -14,6 +14,7 @@ import (
 	"verif/harness/rig"
 
 	pb "github.com/wealdtech/eth2-signer-api/pb/v1"
+	"google.golang.org/grpc"
 )
 
 func idSet(kind string, n int) []uint64 {
@@ -164,6 +165,7 @@ func C12(cfg Cfg) int {
 		}
 	}
 	c12Retry(run, cfg)
+	c12Wire(run, cfg)
 	// Commit arrival orders: observed through the routing sender's sequence numbers in a dedicated small cluster.
 	c12Orders(run, cfg, orders)
 	if run.Get("generations_succeeded") == 0 {
@@ -273,5 +275,149 @@ func c12Retry(run *evid.Run, cfg Cfg) {
 			}
 		}
 		c.Close()
+	}
+}
+
+// c12Wire runs generations on three real daemons over TLS/gRPC (main.go's own wiring of process, peers and
+// the gRPC sender), requested through AccountManager.Generate.
+func c12Wire(run *evid.Run, cfg Cfg) {
+	ca, err := rig.NewCA("verif-ca")
+	if err != nil {
+		run.Inconclusive(err.Error())
+		return
+	}
+	ids := []uint64{1, 2, 3}
+	peers := map[uint64]string{}
+	ports := map[uint64]int{}
+	for _, id := range ids {
+		ip := fmt.Sprintf("127.0.0.%d", id)
+		ports[id] = rig.FreePort(ip)
+		peers[id] = fmt.Sprintf("%s:%d", ip, ports[id])
+	}
+	var ds []*rig.Daemon
+	defer func() {
+		for _, d := range ds {
+			d.Kill()
+		}
+	}()
+	for _, id := range ids {
+		d, err := rig.PrepareDaemon(rig.DaemonOpts{Dir: cfg.Dir(fmt.Sprintf("c12-wire-%d", id)), ID: id, IP: fmt.Sprintf("127.0.0.%d", id), Port: ports[id], CA: ca, Peers: peers,
+			Permissions: map[string]map[string][]string{"client1": {"D": {"All"}}}, DistWallets: []string{"D"}})
+		if err != nil {
+			run.Inconclusive("cannot prepare daemon: " + err.Error())
+			return
+		}
+		if err := d.Start(); err != nil {
+			run.Inconclusive("cannot start daemon: " + err.Error() + d.LogTail(400))
+			return
+		}
+		ds = append(ds, d)
+	}
+	crt, _ := ca.Issue(rig.CertOpts{CN: "client1"})
+	conns := map[uint64]*grpc.ClientConn{}
+	for i, id := range ids {
+		conn, err := rig.Dial(ds[i].Addr, rig.ClientTLS(ca, crt.TLS), "")
+		if err != nil {
+			run.Inconclusive(err.Error())
+			return
+		}
+		defer conn.Close()
+		conns[id] = conn
+	}
+	seq := 0
+	for _, tc := range []struct{ n, t uint32 }{{3, 2}, {3, 3}, {2, 2}, {3, 1}, {3, 4}, {2, 1}} {
+		for ini := 0; ini < cfg.N(1, 3); ini++ {
+			seq++
+			account := fmt.Sprintf("D/wire-%d", seq)
+			am := pb.NewAccountManagerClient(conns[ids[(seq+ini)%3]])
+			ctx, cancel := context.WithTimeout(context.Background(), 60*time.Second)
+			res, err := am.Generate(ctx, &pb.GenerateRequest{Account: account, Passphrase: []byte("pass"), Participants: tc.n, SigningThreshold: tc.t})
+			cancel()
+			run.Eval(1)
+			inRange := tc.t > tc.n/2 && tc.t <= tc.n
+			ok := err == nil && res.GetState() == pb.ResponseState_SUCCEEDED
+			run.Distinct(fmt.Sprintf("wire n=%d t=%d in-range=%v ok=%v", tc.n, tc.t, inRange, ok))
+			witness := map[string]any{"wire": true, "n": tc.n, "t": tc.t, "account": account, "message": res.GetMessage()}
+			if !inRange {
+				if ok {
+					run.Violate(fmt.Sprintf("wire: generation with n=%d t=%d was accepted", tc.n, tc.t), witness)
+				}
+				continue
+			}
+			if !ok {
+				run.Violate(fmt.Sprintf("wire: generation with n=%d t=%d failed: %v %s", tc.n, tc.t, err, res.GetMessage()), witness)
+				continue
+			}
+			part := []uint64{}
+			for _, p := range res.GetParticipants() {
+				part = append(part, p.GetId())
+			}
+			if len(part) != int(tc.n) {
+				run.Violate(fmt.Sprintf("wire: generation returned %d participants for n=%d", len(part), tc.n), witness)
+				continue
+			}
+			pub := res.GetPublicKey()
+			// Every participant signs and lists without restart; partial signatures must recover.
+			data, dom := Root32(byte(seq)), Dom([]byte{9, 0, 0, 0}, byte(seq))
+			root := oracle.SigningRoot(b32(data), dom)
+			sigs := map[uint64][]byte{}
+			for _, id := range part {
+				ctx, cancel := context.WithTimeout(context.Background(), 30*time.Second)
+				sr, err := pb.NewSignerClient(conns[id]).Sign(ctx, &pb.SignRequest{Id: &pb.SignRequest_Account{Account: account}, Data: data, Domain: dom})
+				lr, lerr := pb.NewListerClient(conns[id]).ListAccounts(ctx, &pb.ListAccountsRequest{Paths: []string{"D"}})
+				cancel()
+				if err != nil || sr.GetState() != pb.ResponseState_SUCCEEDED {
+					run.Violate(fmt.Sprintf("wire: participant %d cannot sign with the new account without restart: %v %v", id, sr.GetState(), err), witness)
+					continue
+				}
+				sigs[id] = sr.GetSignature()
+				found := false
+				if lerr == nil {
+					for _, a := range lr.GetDistributedAccounts() {
+						if a.GetName() == account {
+							found = true
+							if string(a.GetCompositePublicKey()) != string(pub) {
+								run.Violate(fmt.Sprintf("wire: participant %d lists the account with another composite key", id), witness)
+							}
+							if a.GetSigningThreshold() != tc.t || len(a.GetParticipants()) != int(tc.n) {
+								run.Violate(fmt.Sprintf("wire: participant %d lists threshold %d / %d participants, requested %d / %d", id, a.GetSigningThreshold(), len(a.GetParticipants()), tc.t, tc.n), witness)
+							}
+						}
+					}
+				}
+				if !found {
+					run.Violate(fmt.Sprintf("wire: participant %d does not list the new account without restart", id), witness)
+				}
+			}
+			if len(sigs) == len(part) {
+				for _, sub := range oracle.Subsets(part, int(tc.t), 16) {
+					rec, err := oracle.Recover(sigs, sub)
+					if err != nil {
+						run.Violate("wire: cannot recover: "+err.Error(), witness)
+					} else if ok, _ := oracle.VerifySig(pub, root[:], rec); !ok {
+						run.Violate(fmt.Sprintf("wire: signature recovered from participants %v is not valid under the composite key", sub), witness)
+					}
+					run.Count("wire_signature_subsets_checked", 1)
+				}
+				if tc.t > 1 {
+					for _, sub := range oracle.Subsets(part, int(tc.t)-1, 16) {
+						if rec, err := oracle.Recover(sigs, sub); err == nil {
+							if ok, _ := oracle.VerifySig(pub, root[:], rec); ok {
+								run.Violate(fmt.Sprintf("wire: %d participants %v produced a valid signature (threshold %d)", tc.t-1, sub, tc.t), witness)
+							}
+						}
+					}
+				}
+			}
+			run.Count("wire_generations_succeeded", 1)
+		}
+	}
+	for i, d := range ds {
+		if !d.Alive() {
+			run.Violate(fmt.Sprintf("daemon %d died during key generation: %s", ids[i], d.LogTail(600)), nil)
+		}
+	}
+	if run.Get("wire_generations_succeeded") == 0 {
+		run.Inconclusive("no generation succeeded over the wire")
 	}
 }
